@@ -176,6 +176,36 @@ def rule_collector(ctx, rule):
                                                 'by self.%s.set() (%d paths)' % (event, n_cut))
 
 
+def rule_collector_no_cancel_after_the_end(ctx, rule):
+    """Outside on_next (whose cut-off is decided above) and the pass-through cancel(), the collector cancels its
+    subscription only behind a test that the stream has not ended (`is_done.is_set()` false): the waiter's release is
+    only *scheduled* by is_done.set(), so a cancellation of the awaiting task in the loop turn of the terminal frame
+    still reaches run() as CancelledError - a CANCEL sent from there goes out on a stream that has already completed."""
+    rep = ctx.report
+    k = ctx.repo.cls(COLLECTOR)
+    n = 0
+    for name, f in sorted(k.methods.items()):
+        if name in ('on_next', 'cancel'):
+            continue
+        for x in walk_local(f.node):
+            if isinstance(x, ast.Call) and isinstance(x.func, ast.Attribute) and x.func.attr == 'cancel' and \
+                    'subscription' in ast.unparse(x.func.value):
+                n += 1
+                guarded = False
+                for g in walk_local(f.node):
+                    if isinstance(g, ast.If) and any(y is x for b in g.body for y in ast.walk(b)):
+                        t = ast.unparse(g.test)
+                        if 'is_set' in t and ('not ' in t or ' is False' in t):
+                            guarded = True
+                rep.add(rule, 'CollectorSubscriber.%s / cancels only a stream that has not ended' % name, f, guarded,
+                        'behind `not self.is_done.is_set()`' if guarded else
+                        '%s() cancels the subscription without asking whether the stream has ended: a task cancelled in '
+                        'the loop turn of the terminal frame sends CANCEL on a completed stream' % name)
+    if n == 0:
+        rep.ok(rule, 'CollectorSubscriber / no cancel outside on_next and cancel()', k,
+               'only the cut-off in on_next and the pass-through cancel() cancel the subscription')
+
+
 def rule_delegations(ctx, rule):
     rep = ctx.report
     repo = ctx.repo
@@ -245,4 +275,5 @@ def rule_delegations(ctx, rule):
 
 def rule_awaitable(ctx, rule):
     rule_collector(ctx, rule)
+    rule_collector_no_cancel_after_the_end(ctx, rule)
     rule_delegations(ctx, rule)
